@@ -22,6 +22,10 @@ CHECKS = {
         technique="Coq proof (soundness + completeness of the fuelled decoder w.r.t. the canonical encoder, spans specified by a function) + exhaustive/generated differential run against Parser::decode",
         text="C08_decode_spec: decode x = Ok t <-> x is the encoding of exactly one canonical value v and t = annot 0 v (every node's start/continuation computed from the encodings); proved for all byte strings. The model is tied to parser.rs by comparing whole trees incl. every span on all strings over a 10-symbol bencode alphabet up to length 5 (6 thorough) plus grammar-generated, mutated and numeric-adversary inputs; an independent reference decoder names the violated clause.",
         ref="DESIGN.md section 5 C08"),
+    "C09": dict(
+        technique="Coq proof (no Panic, fuel |x|+1 suffices, loader total) + child-process runs of the real decoder/loader (debug+release, time limit, counting allocator)",
+        text="Partial by nature: C09_decode_no_panic, C09_decode_fuel_linear, C09_load_total are theorems of the models (all unchecked arithmetic/slices modelled as Panic-capable); stack depth, time and allocation are runtime and are exercised by child-process runs on numeric adversaries, extreme-number documents, deep nesting and long flat inputs. Known finding K1 (stack overflow on >= 4096-deep nesting) is listed in known_findings.json.",
+        ref="DESIGN.md section 5 C09", note="Runtime residue (stack, wall time, allocator) is not provable in the model."),
     "C10": dict(
         technique="Coq proof (loader model on token trees = specification on abstract values with exact-key look-up) + differential run against Torrent::from_bytes on generated documents",
         text="C10_load_iff_wellformed: a byte string loads iff it is the canonical encoding of a value meeting spec_doc (clauses spelled out in C10_fields_faithful), with every loaded field equal to the value in the input; C10_exact_key: look-ups are by exact key. Tied to torrent.rs by 20k (150k thorough) structured/chaotic documents and a UTF-8 boundary stream, with an independent reference loader as oracle.",
